@@ -1282,6 +1282,80 @@ def generic_stage(ctx, cname, spec, t, usable, invokers, quick):
     return done
 
 
+
+def call_edges(ctx, cname, spec, mnames, usable, quick):
+    """observed nested cached calls: while m() runs on a fresh object (caches cleared), every
+    cached method of the class that is looked up *on that object* (attribute loads are traced
+    on the object under test only — sub-networks built by a measure and owned plots share the
+    function objects and their lru counters, so the counters cannot be used) must be reachable
+    from m through the call edges of the Lean table (`callees`)."""
+    cls, rng = spec["cls"], ctx.rng
+    cached = [n for n in mnames if hasattr(getattr(cls, n, None), "cache_info")]
+    cand = [m for m, kw in usable if not kw and m in cached]
+    cand = rng.sample(cand, min(len(cand), 8 if quick else 60))
+    reqs, obs = [], []
+    for m in cand:
+        try:
+            obj = quiet(spec["make"], rng)
+            quiet(obj.cache_clear)
+            fn = getattr(obj, m)
+            r, w = set(), set()
+            with traced(cls, obj, r, w):
+                quiet(fn)
+        except Exception:  # noqa
+            continue
+        seen = sorted(mnames.index(n) for n in cached if n != m and n in r)
+        reqs.append(f"callees {cname} {mnames.index(m)} 0")
+        obs.append((cname, m, seen))
+    return reqs, obs
+
+
+def lru_history(ctx, tables, quick):
+    """exact tie of the bounded cache: a history of `path_lengths(link_attribute=k)` calls over
+    more link attributes than `Cached.lru_params["maxsize"]`, interleaved with
+    `set_link_attribute`, on one Network object; hit / miss of every call must equal the Lean
+    machine's (`nhist`: lru order, trimming to maxsize, key = (_mut_A, _mut_la) + argument)"""
+    from pyunicorn.core import Network
+    rng = ctx.rng
+    t = tables["Network"]
+    mnames = list(t["order"])
+    onames = sorted(t["mutators"])
+    mi, oi = mnames.index("path_lengths"), onames.index("set_link_attribute")
+    reqs, impl = [], []
+    for rep in range(2 if quick else 12):
+        A = conn_graph(rng, 5, 0.5, components=1)
+        net = Network(adjacency=A, silence_level=3)
+        nkeys = rng.choice([34, 40, 48])
+        for k in range(nkeys):
+            net.set_link_attribute(f"k{k}", sym_attr(rng, A))
+        quiet(net.cache_clear)
+        ops, out = [], []
+        recent = []
+        for step in range(rng.randrange(120, 260)):
+            r = rng.random()
+            if r < 0.03:
+                net.set_link_attribute("k0", sym_attr(rng, A) + rng.random())
+                ops.append(f"m{oi}")
+                out.append("-")
+                continue
+            if r < 0.45 and recent:
+                k = rng.choice(recent[-rng.choice([3, 20, 33, 40]):])
+            else:
+                k = rng.randrange(nkeys)
+            recent.append(k)
+            c0 = Network.path_lengths.cache_info()
+            net.path_lengths(link_attribute=f"k{k}")
+            c1 = Network.path_lengths.cache_info()
+            ops.append(f"q{mi}.{100 + k}")
+            out.append("H" if c1.hits > c0.hits else "M")
+        ctx.case(("lru-history", rep, len(ops), nkeys), True)
+        ctx.count("Network:lru-histories")
+        ctx.count("Network:lru-history-ops", len(ops))
+        reqs.append("nhist Network " + ",".join(ops))
+        impl.append(out)
+    return reqs, impl
+
+
 def run(ctx):
     # several classes write files to the working directory (MI dumps): work in a scratch one
     import tempfile
@@ -1317,6 +1391,7 @@ def _run(ctx):
     hist_reqs, hist_impl, hist_meta = [], [], []
     sw_checked, sw_bad = 0, []
     unexercised, n_mutators = [], 0
+    edge_reqs, edge_obs = [], []
 
     for cname, mk in SPECS.items():
         spec = mk()
@@ -1415,6 +1490,9 @@ def _run(ctx):
         nck, bad_sw = sandwich(ctx, cname, spec, t, usable, invokers)
         sw_checked += nck
         sw_bad += bad_sw
+        r_, o_ = call_edges(ctx, cname, spec, mnames, usable, quick)
+        edge_reqs += r_
+        edge_obs += o_
         # ---- hit/miss correspondence: a fresh object per (query, mutator) -------------------
         hm_muts = [(o, f, True) for o, f in spec["mutators"].items()] + \
                   [(o, f, False) for o, (src, f, raising) in invokers.items()
@@ -1500,6 +1578,34 @@ def _run(ctx):
                              {"class": cname, "attribute": expr, "history": trace,
                               "observed": brief(a), "fresh": brief(b)})
 
+    # ---- nested model: call edges and the bounded lru cache -------------------------------
+    ans = common.driver(ctx.pid, edge_reqs)
+    bad_e = []
+    for (cname, m, seen), a in zip(edge_obs, ans):
+        static = set() if a == "-" else {int(x) for x in a.split(",")}
+        extra = [x for x in seen if x not in static]
+        if extra:
+            names_ = list(tables[cname]["order"])
+            bad_e.append(f"{cname}.{m}() looked up {[names_[x] for x in extra]} on the object: no "
+                         "such call edge in the nested table")
+    ctx.obligation(f"call-edge sandwich: cached methods observed to compute inside a cached call are "
+                   f"reachable through the nested table's call edges ({len(edge_reqs)} calls)",
+                   "translator", not bad_e, "\n".join(bad_e[:10]))
+    lreqs, limpl = lru_history(ctx, tables, quick)
+    lans = common.driver(ctx.pid, lreqs)
+    bad_l = []
+    for i, (a, out) in enumerate(zip(lans, limpl)):
+        mod = ["-" if x == "-" else ("H" if x.split("+")[0].split("=")[0].endswith(".H") else "M")
+               for x in a.split(",")]
+        coh = all(x == "-" or x.endswith("=1") for x in a.split(","))
+        if mod != out or not coh:
+            j = next((j for j in range(min(len(mod), len(out))) if mod[j] != out[j]), -1)
+            bad_l.append(f"history {i}: first difference at op {j}: model={mod[j:j + 6]} "
+                         f"impl={out[j:j + 6]} coherent={coh}")
+    ctx.obligation(f"correspondence: hit/miss of every call of {len(lreqs)} lru histories (more "
+                   f"argument patterns than maxsize, interleaved mutators) == the Lean machine "
+                   f"with trimming to Cached.lru_params['maxsize']",
+                   "correspondence", not bad_l, "\n".join(bad_l[:5]))
     ctx.obligation(f"coverage: every translator-known public mutator of every driven class is "
                    f"exercised by a spec mutator or a derived invoker ({n_mutators} (class, mutator) "
                    f"pairs)", "coverage", not unexercised, "\n".join(unexercised[:20]))
